@@ -377,6 +377,11 @@ class Sim(object):
       wait_obj.waiters.append(me)
     if timeout is not None:
       me.deadline = self.now + max(0.0, timeout)
+      if timeout > 0 and me.deadline <= self.now:
+        # a positive wait always moves the clock by at least one representable tick (the clock
+        # value is ~1.7e9, so waits below ~0.2 us would otherwise not advance it and a loop that
+        # sleeps "the remaining time" would spin for ever at one instant)
+        me.deadline = math.nextafter(self.now, math.inf)
       self.tseq += 1
       heapq.heappush(self.timers, (me.deadline, self.tseq, me))
     else:
@@ -790,6 +795,8 @@ def sim_sleep(secs):
   me = cur()
   if me is None:
     return _real_sleep(secs)
+  if secs < 0:
+    raise ValueError('sleep length must be non-negative')   # as the real time.sleep
   s = SIM
   s.deliver_at_sync(me)
   s.block(me, None, secs, 'sleep')
